@@ -244,12 +244,35 @@ Definition case_ref (l : list Z) : list Z :=
   | _ => [-1]
   end.
 
+(** ** Conversions (kind 7): [7; requested type code; n; ctor specs..] *)
+From SF Require Import Model.Convert.
+Definition K_CONV : Z := 7.
+
+Definition case_conv (l : list Z) : list Z :=
+  match l with
+  | tc :: rest =>
+      match st_decode tc, p_list p_ctor rest with
+      | Some t, Some (cts, []) =>
+          if st_eqb t TNull then [-1] else
+          match build_all cts with
+          | Some ss =>
+              flat_map (fun s => st_code (shape_shapetype s) :: st_code (type_of s)
+                                 :: r_res (fun x => r_shape (shape_from x)) (try_from t s)) ss
+              ++ r_res (fun xs => zlen xs :: flat_map (fun x => r_shape (shape_from x)) xs) (convert_all t ss)
+          | None => [-3]
+          end
+      | _, _ => [-1]
+      end
+  | _ => [-1]
+  end.
+
 Definition run_case2 (l : list Z) : list Z :=
   match l with
   | k :: r =>
       if k =? K_WHIST then case_whist r
       else if k =? K_READ then case_read r
       else if k =? K_REF then case_ref r
+      else if k =? K_CONV then case_conv r
       else run_case l
   | [] => [-1]
   end.
